@@ -163,10 +163,14 @@ def moved_row(table, key, live):
 
     def module(fn):
         return "::".join(fn.lstrip("<").split(" as ")[0].split("::{closure")[0].split("::")[:3])
+    def norm_kind(kd):
+        # Iter / IntoIter / Values / Keys ... of the same map type are the same traversal of the same container
+        return re.sub(r"(hash_map|hash_set)::(Iter|IntoIter|Values|IntoValues|ValuesMut|Keys|IntoKeys|IterMut|Drain)<", r"\1::*<", kd)
     fn, kind = split(key)
     for tk, v in table.items():
         tfn, tkind = split(tk)
-        if tk in live or tkind != kind or not kind:
+        same_fn = tfn.split("::{closure")[0] == fn.split("::{closure")[0]
+        if tk in live or not kind or not (tkind == kind or (same_fn and norm_kind(tkind) == norm_kind(kind))):
             continue
         if tfn.split("::{closure")[0] == fn.split("::{closure")[0] or module(tfn) == module(fn):
             return tk, v
@@ -318,9 +322,26 @@ def singleton_side_condition(ctx):
     n = 0
     for cr, kind in ((ctx.lib, "lib"), (ctx.bin, "bin")):
         for k, f in sorted(cr.fns.items()):
-            for bi, t in M.iter_calls(f):
+            # the function may also be selected first (`let report = if .. { report_at_least_one } else { report_all_values }`) and
+            # called through the pointer: an indirect call in a function that names it as a value is a call site too
+            named = False
+
+            def scan_(o):
+                nonlocal named
+                if isinstance(o, dict):
+                    kk = o.get("k")
+                    if isinstance(kk, dict) and "ty" in kk and cr.types[kk["ty"]]["k"] == "fndef" and M.norm_path(cr.types[kk["ty"]].get("p", "")).endswith("rules::eval::report_at_least_one"):
+                        named = True
+                    for v in o.values():
+                        scan_(v)
+                elif isinstance(o, list):
+                    for v in o:
+                        scan_(v)
+            for b_ in f["blocks"]:
+                scan_(b_["s"])
+            for bi, t in M.iter_calls(f, include_indirect=True) if "include_indirect" in M.iter_calls.__code__.co_varnames else M.iter_calls(f):
                 p = M.norm_path(t["fn"].get("path", ""))
-                if not p.endswith("rules::eval::report_at_least_one"):
+                if not (p.endswith("rules::eval::report_at_least_one") or (named and t["fn"].get("via") == "indirect" and t["args"])):
                     continue
                 n += 1
                 pl = M.op_place(t["args"][0])
